@@ -108,7 +108,7 @@ SWEEP_TEXT = {
     'C05.call-does-not-return': 'a call of `{fn}` on a few bytes of input does not return within 20 s of CPU time',
     'C05.unbounded-allocation-request': 'a call of `{fn}` requests an allocation derived from an extreme count (capacity overflow panic)',
     'C05.output-out-of-proportion': 'a call of `{fn}` on a few bytes of input returns more than 4 MiB',
-    'C05.worker-died-resource-exhaustion': 'a call of `{fn}` on a few bytes of input exhausts the 6 GiB address space (the worker process aborts)',
+    'C05.worker-died-resource-exhaustion': 'a call of `{fn}` on a few bytes of input exhausts the 3 GiB address space (the worker process aborts)',
 }
 
 
